@@ -5,7 +5,7 @@
 //! arguments, result and - read after the change through the tree's own getters - root, leaf count and
 //! the leaves at the touched positions. Calls made by the backends on themselves while a traced call is
 //! running are not events. Without the variable nothing is recorded.
-use crate::merkle_tree::{Hasher, ZerokitMerkleTree};
+use crate::merkle_tree::{Hasher, ZerokitMerkleProof, ZerokitMerkleTree};
 use std::cell::Cell;
 use std::fmt::{Display, Write as _};
 use std::io::Write as _;
@@ -99,6 +99,15 @@ pub fn enter() -> Option<Scope> {
     })
 }
 
+/// membership-proof queries are events only when `ZEROKIT_VERIF_TRACE_PROOFS` is set as well
+pub fn enter_proof() -> Option<Scope> {
+    static ON: OnceLock<bool> = OnceLock::new();
+    if !*ON.get_or_init(|| std::env::var_os("ZEROKIT_VERIF_TRACE_PROOFS").is_some()) {
+        return None;
+    }
+    enter()
+}
+
 const READBACK_MAX: usize = 96;
 const EMPTIES_MAX: usize = 512;
 
@@ -158,6 +167,32 @@ impl Scope {
             post_state(t, touched)
         );
         emit(&body);
+        INSIDE.with(|c| c.set(false));
+    }
+
+    /// a membership-proof query (read-only): result, the tree's root and leaf count, and what the proof exposes
+    pub fn finish_proof<T: ZerokitMerkleTree>(mut self, t: &T, proof: Option<&T::Proof>)
+    where
+        <T::Proof as ZerokitMerkleProof>::Index: std::fmt::Debug,
+        T::Proof: ZerokitMerkleProof<Hasher = T::Hasher>,
+    {
+        self.done = true;
+        let exposed = std::panic::catch_unwind(std::panic::AssertUnwindSafe(|| match proof {
+            Some(p) => format!(
+                "\"res\":\"ok\",\"len\":{},\"idx\":{},\"sib\":{},\"bits\":[{}]",
+                p.length(),
+                p.leaf_index(),
+                q_list(&p.get_path_elements()),
+                p.get_path_index()
+                    .iter()
+                    .map(|b| format!("{:?}", b))
+                    .collect::<Vec<_>>()
+                    .join(",")
+            ),
+            None => "\"res\":\"err\"".to_string(),
+        }))
+        .unwrap_or_else(|_| "\"res\":\"panic\"".to_string());
+        emit(&format!("{},{},{}", self.head, exposed, post_state(t, &[])));
         INSIDE.with(|c| c.set(false));
     }
 
